@@ -485,6 +485,95 @@ static int cmn_text_finite(const char *s)
     return 1;
 }
 
+/* The same frame scored several times with DIFFERENT active senone sets, as a second search pass sharing the
+ * acmod would do (acmod.h: acmod_clear_active / acmod_activate_hmm / acmod_score):  B, then A (A and B overlap,
+ * neither contains the other), then B again.  After every call: all ACTIVE scores >= 0 with minimum 0; the second
+ * scoring of B must equal the first one (a fresh scoring of the frame). */
+static void rescoring_probe(decoder_t *d, uint64_t seed, int every)
+{
+    acmod_t *am = d->acmod;
+    int nsen = bin_mdef_n_sen(am->mdef), fr, pass, i;
+    long frames = 0, probed = 0, neg = 0, minnz = 0, mismatch = 0, first_bad = -1, nullscr = 0;
+    int worst = 0;
+    uint64_t st = seed * 2654435761u + 17;
+    uint8 *inA = (uint8 *)calloc(nsen, 1), *inB = (uint8 *)calloc(nsen, 1);
+    int16 *firstB = (int16 *)calloc(nsen, sizeof(int16));
+    while (am->n_feat_frame > 0) {
+        fr = am->output_frame;
+        if (frames % every == 0 && !am->compallsen) {
+            int base = (int)(vf_rand(&st) % nsen), stepA = 1 + (int)(vf_rand(&st) % 7), stepB = 1 + (int)(vf_rand(&st) % 5);
+            int nA = 20 + (int)(vf_rand(&st) % 300), nB = 20 + (int)(vf_rand(&st) % 300);
+            memset(inA, 0, nsen); memset(inB, 0, nsen);
+            for (i = 0; i < nA; i++) inA[(base + i * stepA) % nsen] = 1;
+            for (i = 0; i < nB; i++) inB[(base + nA / 2 * stepA + 1 + i * stepB) % nsen] = 1;
+            for (pass = 0; pass < 3; pass++) {
+                uint8 *set = (pass == 1) ? inA : inB;
+                int16 const *scr;
+                int f2 = fr, mn = INT_MAX, bad = 0;
+                acmod_clear_active(am);
+                for (i = 0; i < nsen; i++) if (set[i]) bitvec_set(am->senone_active_vec, i);
+                scr = acmod_score(am, &f2);
+                if (scr == NULL) { nullscr++; break; }
+                for (i = 0; i < nsen; i++) if (set[i]) {
+                    if (scr[i] < 0) { bad = 1; if (scr[i] < worst) worst = scr[i]; }
+                    if (scr[i] < mn) mn = scr[i];
+                    if (pass == 0) firstB[i] = scr[i];
+                    if (pass == 2 && firstB[i] != scr[i]) { mismatch++; bad = 1; }
+                }
+                /* the evaluated set is the delta-coded list acmod_flags2list built: the requested senones plus the
+                 * bridge senones it inserts for gaps > 255; the frame's best (0) may be one of those */
+                {
+                    int sen = 0;
+                    for (i = 0; i < am->n_senone_active; i++) { sen += am->senone_active[i]; if (scr[sen] < mn) mn = scr[sen]; }
+                }
+                if (bad) neg += (mn < 0);
+                if (mn != 0) { minnz++; bad = 1; }
+                if (bad && first_bad < 0) first_bad = fr * 10 + pass;
+            }
+            probed++;
+        }
+        acmod_advance(am);
+        frames++;
+    }
+    printf("pobs frames=%ld probed=%ld neg=%ld minnz=%ld mismatch=%ld worst=%d nullscr=%ld first_bad=%ld compallsen=%d\n",
+           frames, probed, neg, minnz, mismatch, worst, nullscr, first_bad, (int)am->compallsen);
+    fflush(stdout);
+    free(inA); free(inB); free(firstB);
+}
+
+/* One export / re-import cycle of the CMN state through the public API:
+ *   g = decoder_get_cmn(d, update); every number finite?  state arrays finite?
+ *   decoder_set_cmn(d, g) must ACCEPT what get just produced (return 0);
+ *   decoder_get_cmn(d, 0) must give the same text; the mean may move by at most the %g rounding. */
+static void cmn_roundtrip(decoder_t *d, int update, int *struct_fin, int *text_fin, int *rt, int *set_rc, double *relerr, char **text)
+{
+    cmn_t *cm = d->acmod->fcb->cmn_struct;
+    float before[64]; int nv = cm->veclen < 64 ? cm->veclen : 64, i;
+    const char *g1, *g2; char *c1, *c2;
+    for (i = 0; i < cm->veclen; i++) {
+        if (!finite_f(cm->cmn_mean[i]) || !finite_f(cm->sum[i])) *struct_fin = 0;
+        if (d->acmod->fcb->varnorm && d->acmod->fcb->cmn == CMN_BATCH && !finite_f(cm->cmn_var[i])) *struct_fin = 0;
+    }
+    g1 = decoder_get_cmn(d, update);
+    for (i = 0; i < cm->veclen; i++)
+        if (!finite_f(cm->cmn_mean[i]) || !finite_f(cm->sum[i])) *struct_fin = 0;
+    c1 = strdup(g1 ? g1 : "(null)");
+    for (i = 0; i < nv; i++) before[i] = cm->cmn_mean[i];
+    *text_fin = g1 ? cmn_text_finite(c1) : 0;
+    *set_rc = decoder_set_cmn(d, c1);
+    g2 = decoder_get_cmn(d, 0);
+    c2 = strdup(g2 ? g2 : "(null)");
+    *rt = !strcmp(c1, c2);
+    for (i = 0; i < nv; i++) {
+        double a = before[i], b = cm->cmn_mean[i], e;
+        if (!finite_f(a) || !finite_f(b)) { *relerr = 1e9; continue; }
+        e = fabs(a - b) / (fabs(a) > 1e-30 ? fabs(a) : 1e-30);
+        if (fabs(a - b) > 1e-37 && e > *relerr) *relerr = e;
+    }
+    free(c2);
+    *text = c1;
+}
+
 static int main_sig(const char *json, const char *speech, const char *lang)
 {
     static char line[4096];
@@ -541,14 +630,15 @@ static int main_sig(const char *json, const char *speech, const char *lang)
     /* utt <fmt i16|f32> <kind> <p1> <p2> <nsamples> <seed> <batch 0|1> <chunk> <cmnupdate 0|1> */
     while (fgets(line, sizeof(line), stdin)) {
         char *w[16];
-        int nw = vf_words(line, w, 16), isf, kind, batch, upd;
+        int nw = vf_words(line, w, 16), isf, kind, batch, upd, probe;
         long p1, p2; size_t n, chunk, i; uint64_t seed;
         double *sig; int16 *s16 = NULL; float32 *f32 = NULL;
         obs_t o;
         int32 score = 0; long long segsum = 0; int nseg = 0, segbad = 0;
-        const char *hyp; char *c1, *c2; int cmn_fin, cmn_rt, cmn_struct_fin = 1; double cmn_relerr = 0;
+        const char *hyp; char *c1, *c2; int cmn_fin, cmn_rt, cmn_struct_fin = 1, cmn_set_rc = 0, cmn_bad_update = -1; double cmn_relerr = 0;
         cmn_t *cm;
-        if (nw < 10 || strcmp(w[0], "utt")) { printf("bad-op\n"); fflush(stdout); continue; }
+        if (nw < 10 || (strcmp(w[0], "utt") && strcmp(w[0], "probe"))) { printf("bad-op\n"); fflush(stdout); continue; }
+        probe = !strcmp(w[0], "probe");
         isf = !strcmp(w[1], "f32");
         for (kind = 0; kind < K_NKINDS; kind++) if (!strcmp(kind_names[kind], w[2])) break;
         p1 = L(w[3]); p2 = L(w[4]); n = (size_t)L(w[5]); seed = strtoull(w[6], NULL, 10);
@@ -628,6 +718,21 @@ static int main_sig(const char *json, const char *speech, const char *lang)
 
         /* 2. whole decoder */
         if (decoder_start_utt(d) < 0) { printf("err start_utt\n"); fflush(stdout); goto next; }
+        if (probe) {
+            /* acmod-level probe: `probe ...` has the same fields as `utt`, the last one = probe every k-th frame */
+            size_t pos = 0;
+            if (batch) { if (isf) decoder_process_float32(d, f32, n, 1, 1); else decoder_process_int16(d, s16, n, 1, 1); }
+            else while (pos < n) {
+                size_t m = n - pos < chunk ? n - pos : chunk;
+                if (isf) decoder_process_float32(d, f32 + pos, m, 1, 0); else decoder_process_int16(d, s16 + pos, m, 1, 0);
+                pos += m;
+            }
+            acmod_end_utt(d->acmod);
+            rescoring_probe(d, seed, upd < 1 ? 1 : upd);
+            search_module_finish(d->search);
+            ptmr_stop(&d->perf);
+            goto next;
+        }
         if (batch) {
             if (isf) decoder_process_float32(d, f32, n, 1, 1); else decoder_process_int16(d, s16, n, 1, 1);
             forward(d, &o);
@@ -657,49 +762,42 @@ static int main_sig(const char *json, const char *speech, const char *lang)
                 nseg++;
             }
         }
-        /* 3. CMN state */
+        /* 3. CMN state: export / finite / re-import, with update = 0, 1 or both (upd: 0, 1, 2 = 0 then 1, 3 = 1 then 0) */
         cm = d->acmod->fcb->cmn_struct;
         c1 = c2 = NULL; cmn_fin = cmn_rt = 1;
         if (cm == NULL) {
             /* cmn: none — there is no state; the documented getters are still called (they must not crash) */
             const char *g1;
             printf("cmn-none\n"); fflush(stdout);
-            g1 = decoder_get_cmn(d, upd);
+            g1 = decoder_get_cmn(d, upd & 1);
             c1 = strdup(g1 ? g1 : "(none)");
             decoder_set_cmn(d, "1,2,3");
         } else {
-            float before[64]; int nv = cm->veclen < 64 ? cm->veclen : 64;
-            const char *g1;
-            for (i = 0; (int)i < cm->veclen; i++) {
-                if (!finite_f(cm->cmn_mean[i]) || !finite_f(cm->sum[i])) cmn_struct_fin = 0;
-                if (d->acmod->fcb->varnorm && d->acmod->fcb->cmn == CMN_BATCH && !finite_f(cm->cmn_var[i])) cmn_struct_fin = 0;
-            }
-            g1 = decoder_get_cmn(d, upd);
-            for (i = 0; (int)i < cm->veclen; i++)
-                if (!finite_f(cm->cmn_mean[i]) || !finite_f(cm->sum[i])) cmn_struct_fin = 0;
-            c1 = strdup(g1 ? g1 : "(null)");
-            for (i = 0; (int)i < nv; i++) before[i] = cm->cmn_mean[i];
-            cmn_fin = g1 ? cmn_text_finite(c1) : 0;
-            decoder_set_cmn(d, c1);
-            c2 = strdup(decoder_get_cmn(d, 0));
-            cmn_rt = !strcmp(c1, c2);
-            for (i = 0; (int)i < nv; i++) {
-                double a = before[i], b = cm->cmn_mean[i], e;
-                if (!finite_f(a) || !finite_f(b)) { cmn_relerr = 1e9; continue; }
-                e = fabs(a - b) / (fabs(a) > 1e-30 ? fabs(a) : 1e-30);
-                if (fabs(a - b) > 1e-37 && e > cmn_relerr) cmn_relerr = e;
+            int seq[2], nseq = 0, q;
+            if (upd == 0) seq[nseq++] = 0; else if (upd == 1) seq[nseq++] = 1;
+            else if (upd == 2) { seq[nseq++] = 0; seq[nseq++] = 1; } else { seq[nseq++] = 1; seq[nseq++] = 0; }
+            for (q = 0; q < nseq; q++) {
+                int f1 = 1, r1 = 1, sf = 1, src = 0; double re = 0; char *txt = NULL;
+                cmn_roundtrip(d, seq[q], &sf, &f1, &r1, &src, &re, &txt);
+                if (!sf) cmn_struct_fin = 0;
+                if (!f1) cmn_fin = 0;
+                if (!r1) cmn_rt = 0;
+                if (src != 0) cmn_set_rc = src;
+                if (re > cmn_relerr) cmn_relerr = re;
+                if ((!sf || !f1 || !r1 || src != 0) && cmn_bad_update < 0) cmn_bad_update = seq[q];
+                free(c1); c1 = txt;
             }
         }
         printf("obs ncep=%ld cep_bad=%ld cep_first_bad=%ld nfeat=%ld feat_bad=%ld feat_first_bad=%ld "
                "c0neg=%ld sen_frames=%ld sen_empty=%ld sen_neg=%ld sen_minnz=%ld sen_first_bad=%ld sen_max=%d "
                "hmm_checked=%ld hmm_bad=%ld hmm_min=%d hmm_max=%d best_frames=%ld best_up=%ld best_pos=%ld best_last=%d "
                "hist_n=%ld hist_bad=%ld hist_up=%ld hyp=%d score=%d nseg=%d segsum=%lld segbad=%d "
-               "cmn_struct_fin=%d cmn_fin=%d cmn_rt=%d cmn_relerr=%.3g nframes=%d cmn=%s\n",
+               "cmn_struct_fin=%d cmn_fin=%d cmn_rt=%d cmn_set_rc=%d cmn_bad_update=%d cmn_relerr=%.3g nframes=%d cmn=%s\n",
                o.ncep, o.cep_bad, o.cep_first_bad, o.nfeat, o.feat_bad, o.feat_first_bad,
                o.c0neg, o.sen_frames, o.sen_empty, o.sen_neg, o.sen_minnz, o.sen_first_bad, o.sen_max == INT_MIN ? -1 : o.sen_max,
                o.hmm_checked, o.hmm_bad, o.hmm_min, o.hmm_max == INT_MIN ? 1 : o.hmm_max, o.best_frames, o.best_up, o.best_pos, o.best_last,
                o.hist_n, o.hist_bad, o.hist_up, hyp ? 1 : 0, score, nseg, segsum, segbad,
-               cmn_struct_fin, cmn_fin, cmn_rt, cmn_relerr, decoder_n_frames(d), c1);
+               cmn_struct_fin, cmn_fin, cmn_rt, cmn_set_rc, cmn_bad_update, cmn_relerr, decoder_n_frames(d), c1);
         fflush(stdout);
         free(c1); free(c2);
     next:
@@ -711,8 +809,111 @@ static int main_sig(const char *json, const char *speech, const char *lang)
     return 0;
 }
 
+/* ------------------------------------------------------------------------------------------ */
+/* front end alone over MANY configurations: `h_c18 fe` reads one JSON configuration per line; each is run in
+ * a forked child (fe_init may E_FATAL = exit on a filterbank it cannot build).  For an accepted configuration:
+ * every mel filter coefficient must be finite, and every cepstral value of a fixed set of signals must be.    */
+#include <sys/wait.h>
+#include <unistd.h>
+
+static void fe_one_config(const char *json)
+{
+    config_t *config = config_parse_json(NULL, json);
+    fe_t *fe;
+    int ceplen, i, j, k, kind, isf;
+    long coef_bad = 0, coef_neg = 0, ncoef = 0, frames = 0, bad = 0;
+    char first[64] = "-";
+    mfcc_t **cep;
+    static const int kinds[] = { K_ZERO, K_NOISE, K_IMPULSE, K_DC, K_ALT, K_LSB, K_SQUARE };
+    if (!config) { printf("fecfg init=0 why=config\n"); return; }
+    fe = fe_init(config);
+    if (!fe) { printf("fecfg init=0 why=fe_init\n"); return; }
+    ceplen = fe_get_output_size(fe);
+    for (i = 0; i < fe->mel_fb->num_filters; i++)
+        for (j = 0; j < fe->mel_fb->filt_width[i]; j++) {
+            double v = fe->mel_fb->filt_coeffs[fe->mel_fb->filt_start[i] + j];
+            ncoef++;
+            if (!isfinite(v)) coef_bad++; else if (v < 0) coef_neg++;
+        }
+    cep = (mfcc_t **)ckd_calloc_2d(300, ceplen, sizeof(mfcc_t));
+    for (k = 0; k < (int)(sizeof(kinds) / sizeof(kinds[0])); k++) {
+        for (isf = 0; isf < 2; isf++) {
+            size_t n = (size_t)fe->frame_shift * 24 + fe->frame_size, pos = 0;
+            double *sig = (double *)malloc(sizeof(double) * (n + 1));
+            int16 *s16 = (int16 *)malloc(2 * (n + 1)); float32 *f32 = (float32 *)malloc(4 * (n + 1));
+            int fr = 0, nfr;
+            kind = kinds[k];
+            gen_signal(kind, kind == K_NOISE ? 32767 : kind == K_IMPULSE ? 97 : kind == K_DC ? -32768 : 3,
+                       32767, n, 11 + k, sig);
+            for (i = 0; (size_t)i < n; i++) {
+                s16[i] = clip16(sig[i]); f32[i] = (float32)(sig[i] / 32768.0);
+                if (fe->swap) {
+                    uint16 v = (uint16)s16[i]; unsigned char *b = (unsigned char *)&f32[i], t;
+                    s16[i] = (int16)((v >> 8) | (v << 8));
+                    t = b[0]; b[0] = b[3]; b[3] = t; t = b[1]; b[1] = b[2]; b[2] = t;
+                }
+            }
+            fe_start(fe);
+            while (pos <= n) {
+                size_t m = n - pos < 1000 ? n - pos : 1000, left = m;
+                int16 *p16 = s16 + pos; float32 *pf = f32 + pos; int guard = 0;
+                if (pos == n) {
+                    nfr = fe_end(fe, cep, 300);
+                } else {
+                    nfr = 0;
+                    while (left > 0 && guard++ < 8) {
+                        int r = isf ? fe_process_float32(fe, &pf, &left, cep + nfr, 300 - nfr)
+                                    : fe_process_int16(fe, &p16, &left, cep + nfr, 300 - nfr);
+                        if (r <= 0) break;
+                        nfr += r;
+                    }
+                }
+                for (i = 0; i < nfr; i++) {
+                    int b = 0;
+                    for (j = 0; j < ceplen; j++) if (!isfinite(cep[i][j])) b = 1;
+                    frames++;
+                    if (b) { if (!bad) snprintf(first, sizeof(first), "%s/%s/frame%d", kind_names[kind], isf ? "f32" : "i16", fr); bad++; }
+                    fr++;
+                }
+                if (pos == n) break;
+                pos += m;
+            }
+            free(sig); free(s16); free(f32);
+        }
+    }
+    printf("fecfg init=1 nfilt=%d fft=%d frame_size=%d shift=%d ceplen=%d ncoef=%ld coef_bad=%ld coef_neg=%ld frames=%ld bad=%ld first=%s\n",
+           fe->mel_fb->num_filters, fe->fft_size, fe->frame_size, fe->frame_shift, ceplen, ncoef, coef_bad, coef_neg, frames, bad, first);
+}
+
+static int main_fe(void)
+{
+    static char line[8192];
+    err_set_loglevel(ERR_FATAL);
+    while (fgets(line, sizeof(line), stdin)) {
+        pid_t pid;
+        int status = 0;
+        size_t L0 = strlen(line);
+        while (L0 && (line[L0 - 1] == '\n' || line[L0 - 1] == '\r')) line[--L0] = 0;
+        if (!L0) continue;
+        fflush(stdout);
+        pid = fork();
+        if (pid == 0) {
+            fe_one_config(line);
+            fflush(stdout);
+            _exit(0);
+        }
+        waitpid(pid, &status, 0);
+        if (!WIFEXITED(status) || WEXITSTATUS(status) != 0)
+            printf("fecfg died exited=%d code=%d signal=%d\n", WIFEXITED(status), WIFEXITED(status) ? WEXITSTATUS(status) : -1,
+                   WIFSIGNALED(status) ? WTERMSIG(status) : 0);
+        fflush(stdout);
+    }
+    return 0;
+}
+
 int main(int argc, char **argv)
 {
+    if (argc >= 2 && !strcmp(argv[1], "fe")) return main_fe();
     if (argc >= 2 && !strcmp(argv[1], "int")) return main_int();
     if (argc >= 4 && !strcmp(argv[1], "sig")) return main_sig(argv[2], argv[3], argc >= 5 ? argv[4] : "en");
     fprintf(stderr, "usage: h_c18 int < ops | h_c18 sig '<json>' <speech.raw> < utts\n");
